@@ -60,7 +60,8 @@ TStop == /\ l <= N /\ ~ign /\ E.e \in {"Hang", "Abort"}
 TCall ==
   /\ IsEvent("Call") /\ ~ign
   /\ LET o == [k |-> E.op, n |-> W(E.n), take |-> E.take] IN
-     IF E.op \notin Supported \/ E.pa > 0      \* low-level calls and panicking closures are not modelled here
+     \* low-level calls, panicking closures and requests of 2^63 and more (the model's word is MOD) are not modelled here
+     IF E.op \notin Supported \/ E.pa > 0 \/ E.n >= 1000000000
        THEN l' = l + 1 /\ ign' = TRUE /\ UNCHANGED <<vars, run, expv, div, cnt>>
      ELSE IF pc[E.t] = "idle" /\ alive /\ (E.op = "bnext" => buf[E.t] > 0 /\ buf[E.t] = W(E.n))
        THEN /\ CallBody(E.t, IF E.op = "bnext" THEN [o EXCEPT !.n = 0] ELSE o)
